@@ -56,3 +56,143 @@ package dispatcher
 //@   ensures [one_attempt_recorded] attemptsRecorded == old(attemptsRecorded) + 1 && lastAttemptNo == env.Attempt && lastAttemptEvent == env.ID
 //@   ensures [outcome_matches] (result.kind == leaseActionAck ==> lastOutcome == queue.AttemptOutcomeAcked) && (result.kind == leaseActionNack ==> lastOutcome == queue.AttemptOutcomeRetry) && (result.kind == leaseActionMarkDead ==> lastOutcome == queue.AttemptOutcomeDead && lastDeadReason == result.reason)
 //@   ensures [lease_identity] result.leaseID == env.LeaseID && result.route == env.Route
+
+// ---- C17: signing and rotation windows ----
+
+//@ spec
+//@ pred signingValidAt(v HMACSigningSecretVersion, at time.Time) := v.ValidFrom != 0 && v.ValidFrom <= at && (!v.HasUntil || at < v.ValidUntil)
+//@ pred betterVersion(v HMACSigningSecretVersion, w HMACSigningSecretVersion, newest bool) := (newest && v.ValidFrom > w.ValidFrom) || (!newest && v.ValidFrom < w.ValidFrom) || (v.ValidFrom == w.ValidFrom && v.ID < w.ID)
+
+//@ func isSigningSecretVersionValidAt
+//@   ensures [C17:iff_window] result <==> signingValidAt(v, at)
+
+//@ func selectSigningSecretRef
+//@   loop 1 invariant [bounds] selectedIdx >= -1 && selectedIdx <= rangeindex && rangeindex < len(cfg.SecretVersions) && cfg != nil && (selection == "newest_valid" || selection == "oldest_valid")
+//@   loop 1 invariant [none_so_far] selectedIdx < 0 ==> forall j int :: 0 <= j && j <= rangeindex ==> !signingValidAt(cfg.SecretVersions[j], at)
+//@   loop 1 invariant [best_so_far] selectedIdx >= 0 ==> signingValidAt(cfg.SecretVersions[selectedIdx], at) && forall j int :: 0 <= j && j <= rangeindex && j != selectedIdx && signingValidAt(cfg.SecretVersions[j], at) ==> !betterVersion(cfg.SecretVersions[j], cfg.SecretVersions[selectedIdx], selection == "newest_valid") && (cfg.SecretVersions[j].ValidFrom != cfg.SecretVersions[selectedIdx].ValidFrom || cfg.SecretVersions[j].ID != cfg.SecretVersions[selectedIdx].ID || selectedIdx < j)
+//@   ensures [C17:no_versions_uses_ref] cfg != nil && len(cfg.SecretVersions) == 0 ==> ((result1 == nil) <==> trim(cfg.SecretRef) != "") && (result1 == nil ==> result0 == trim(cfg.SecretRef))
+//@   ensures [C17:nil_config] cfg == nil ==> result1 != nil
+//@   ensures [C17:none_valid_is_error] cfg != nil && len(cfg.SecretVersions) > 0 && (forall j int :: 0 <= j && j < len(cfg.SecretVersions) ==> !signingValidAt(cfg.SecretVersions[j], at)) ==> result1 != nil
+//@   ensures [C17:picks_best_valid] cfg != nil && len(cfg.SecretVersions) > 0 && result1 == nil ==> exists i int :: 0 <= i && i < len(cfg.SecretVersions) && signingValidAt(cfg.SecretVersions[i], at) && result0 == trim(cfg.SecretVersions[i].Ref) && result0 != "" && (forall j int :: 0 <= j && j < len(cfg.SecretVersions) && j != i && signingValidAt(cfg.SecretVersions[j], at) ==> !betterVersion(cfg.SecretVersions[j], cfg.SecretVersions[i], lower(trim(cfg.SecretSelection)) != "oldest_valid"))
+//@   ensures [C17:selection_rule] cfg != nil && len(cfg.SecretVersions) > 0 && result1 == nil ==> lower(trim(cfg.SecretSelection)) == "" || lower(trim(cfg.SecretSelection)) == "newest_valid" || lower(trim(cfg.SecretSelection)) == "oldest_valid"
+
+// ---- C16: egress policy ----
+
+//@ spec
+//@ ghost var resolvedIPs []net.IP
+//@ ghost var egressOKURL *url.URL
+//@ ufunc ipAddrOf(ip net.IP) netip.Addr
+//@ ufunc ipAddrOK(ip net.IP) bool
+//@ pred allowedIPSpec(ip net.IP) := ip != nil && !ext("net.(IP).IsLoopback", ip) && !ext("net.(IP).IsLinkLocalUnicast", ip) && !ext("net.(IP).IsLinkLocalMulticast", ip) && !ext("net.(IP).IsMulticast", ip) && !ext("net.(IP).IsUnspecified", ip) && !ext("net.(IP).IsPrivate", ip) && ext("net.(IP).IsGlobalUnicast", ip)
+//@ pred hostRuleSpec(host string, rule EgressRule) := rule.Host != "" && host != "" && (rule.Host == "*" || (!rule.Subdomains && host == rule.Host) || (rule.Subdomains && host != rule.Host && suffixof("." + rule.Host, host)))
+//@ pred ruleMatches(host string, ips []net.IP, r EgressRule) := (r.IsCIDR && (exists k int :: 0 <= k && k < len(ips) && ipAddrOK(ips[k]) && ext("net/netip.(Prefix).Contains", r.CIDR, ipAddrOf(ips[k])))) || (!r.IsCIDR && hostRuleSpec(host, r))
+//@ pred rulesMatch(host string, ips []net.IP, rules []EgressRule) := exists i int :: 0 <= i && i < len(rules) && ruleMatches(host, ips, rules[i])
+//@ func egressHost(u *url.URL) string := trimsuffix(lower(trim(ext("net/url.(*URL).Hostname", u))), ".")
+//@ pred anyCIDR(rules []EgressRule) := exists i int :: 0 <= i && i < len(rules) && rules[i].IsCIDR
+
+//@ func isAllowedIP
+//@   ensures [C16:iff_spec] result <==> allowedIPSpec(ip)
+
+//@ func matchHostRule
+//@   ensures [C16:iff_spec] result <==> hostRuleSpec(host, rule)
+
+//@ func netipFromIP
+//@   trusted
+//@   ensures result0 == ipAddrOf(ip) && result1 == ipAddrOK(ip)
+
+//@ func hasCIDRRules
+//@   loop 1 invariant [none] forall j int :: 0 <= j && j <= rangeindex ==> !policy.Allow[j].IsCIDR
+//@   loop 2 invariant [none] (forall j int :: 0 <= j && j < len(policy.Allow) ==> !policy.Allow[j].IsCIDR) && (forall j int :: 0 <= j && j <= rangeindex ==> !policy.Deny[j].IsCIDR)
+//@   ensures [C16:iff_any_cidr] result <==> anyCIDR(policy.Allow) || anyCIDR(policy.Deny)
+
+//@ func matchEgressRules
+//@   loop 1 invariant [none_before] forall j int :: 0 <= j && j <= rangeindex ==> !ruleMatches(host, ips, rules[j])
+//@   loop 2 invariant [outer] r.IsCIDR && 0 <= rangeindex1 && rangeindex1 < len(rules) && r.CIDR == rules[rangeindex1].CIDR && rules[rangeindex1].IsCIDR && (forall j int :: 0 <= j && j < rangeindex1 ==> !ruleMatches(host, ips, rules[j]))
+//@   loop 2 invariant [inner_none] forall k int :: 0 <= k && k <= rangeindex2 ==> !(ipAddrOK(ips[k]) && ext("net/netip.(Prefix).Contains", r.CIDR, ipAddrOf(ips[k])))
+//@   ensures [C16:iff_some_rule] result <==> rulesMatch(host, ips, rules)
+
+//@ spec
+//@ ghost var sends int
+//@ ghost var signedReq *http.Request
+//@ ghost var clockNow time.Time
+//@ ghost var lastSecret []byte
+//@ ghost var macKey []byte
+//@ ghost var macData string
+//@ ufunc hmacSHA256(key []byte, data string) []byte
+
+//@ iface dispatcher.resolver.LookupIPAddr(self, ctx, host) (addrs, err)
+
+//@ extern net/http.NewRequestWithContext(ctx, method, url, body) (req, err)
+//@   ensures err == nil ==> req != nil && fresh(req) && req.URL == ext("net/url.Parse", url) && req.URL != nil && req.Header != nil && req.Method == method
+//@   ensures err != nil ==> req == nil
+
+//@ extern net/http.(*Client).Do(c, req) (resp, err)
+//@   modifies sends
+//@   ensures sends == old(sends) + 1
+//@   ensures err == nil ==> resp != nil
+
+//@ extern local:nowFn() (t)
+//@   modifies clockNow
+//@   ensures t != 0 && clockNow == t
+
+//@ extern crypto/hmac.New(h, key) (mac)
+//@   modifies macKey, macData
+//@   ensures macKey == key && macData == ""
+
+//@ iface hash.Hash.Write(self, p) (n, err)
+//@   modifies macData
+//@   ensures macData == concat(old(macData), p)
+
+//@ iface hash.Hash.Sum(self, b) (sum)
+//@   ensures b == nil ==> sum == hmacSHA256(macKey, macData)
+
+//@ func resolveHostIPs
+//@   modifies resolvedIPs
+//@   sets resolvedIPs := result0
+//@   ensures [no_need] !needIPs ==> result1 == nil && len(result0) == 0
+//@   ensures [tied] resolvedIPs == result0
+
+//@ func checkEgressPolicyURL
+//@   modifies resolvedIPs, egressOKURL
+//@   sets egressOKURL := ite(result == nil, u, old(egressOKURL))
+//@   loop 1 invariant [all_allowed] forall k int :: 0 <= k && k <= rangeindex ==> allowedIPSpec(ips[k])
+//@   ensures [C16:nil_means_allowed] result == nil ==> u != nil && (lower(u.Scheme) == "http" || lower(u.Scheme) == "https") && (policy.HTTPSOnly ==> lower(u.Scheme) == "https") && egressHost(u) != "" && (policy.DNSRebindProtection ==> forall k int :: 0 <= k && k < len(resolvedIPs) ==> allowedIPSpec(resolvedIPs[k])) && !rulesMatch(egressHost(u), resolvedIPs, policy.Deny) && (len(policy.Allow) > 0 ==> rulesMatch(egressHost(u), resolvedIPs, policy.Allow))
+//@   ensures [C16:ips_resolved_when_needed] result == nil && !(policy.DNSRebindProtection || anyCIDR(policy.Allow) || anyCIDR(policy.Deny)) ==> len(resolvedIPs) == 0
+//@   ensures [C16:scheme_denied] u != nil && lower(u.Scheme) != "http" && lower(u.Scheme) != "https" ==> errIs(result, ErrPolicyDenied)
+//@   ensures [C16:https_only_denied] u != nil && policy.HTTPSOnly && lower(u.Scheme) != "https" ==> errIs(result, ErrPolicyDenied)
+//@   ensures [C16:nil_url_denied] u == nil ==> errIs(result, ErrPolicyDenied)
+//@   ensures [C16:ok_marks_url] (result == nil ==> egressOKURL == u) && (result != nil ==> egressOKURL == old(egressOKURL))
+
+//@ func checkEgressPolicy
+//@   modifies resolvedIPs, egressOKURL
+//@   ensures [C16:ok_marks_parsed_url] result == nil ==> egressOKURL == ext("net/url.Parse", rawURL) && egressOKURL != nil
+//@   ensures [C16:error_marks_nothing] result != nil ==> egressOKURL == old(egressOKURL)
+
+//@ func (*HTTPDeliverer).checkRedirect
+//@   requires d != nil && req != nil
+//@   modifies resolvedIPs, egressOKURL
+//@   ensures [C16:redirect_hop_checked] result == nil ==> len(via) < 10 && egressOKURL == req.URL && req.URL != nil
+
+//@ func NewHTTPDeliverer$1
+//@   ensures [C16:stops] result == http.ErrUseLastResponse
+
+//@ func (*HTTPDeliverer).loadSigningSecret
+//@   trusted
+//@   modifies lastSecret
+//@   ensures lastSecret == result0
+
+//@ func (*HTTPDeliverer).applyDeliverySigning
+//@   requires d != nil && req != nil && req.URL != nil && req.Header != nil
+//@   modifies req.Header, clockNow, lastSecret, macKey, macData, signedReq
+//@   sets signedReq := ite(result == nil, req, old(signedReq))
+//@   ensures [C17:unsigned_untouched] delivery.Sign == nil ==> result == nil
+//@   ensures [C17:signature_header] delivery.Sign != nil && result == nil ==> let ts := itoa(unixSeconds(clockNow)) :: let p := ite(ext("net/url.(*URL).EscapedPath", req.URL) == "", "/", ext("net/url.(*URL).EscapedPath", req.URL)) :: canon(trim(delivery.Sign.SignatureHeader)) in req.Header && len(req.Header[canon(trim(delivery.Sign.SignatureHeader))]) == 1 && req.Header[canon(trim(delivery.Sign.SignatureHeader))][0] == hexOf(hmacSHA256(lastSecret, concat(upper(req.Method), "\n", p, "\n", ts, "\n", hexOf(sha256Of(delivery.Body))))) && len(lastSecret) > 0
+//@   ensures [C17:timestamp_header] delivery.Sign != nil && result == nil && canon(trim(delivery.Sign.TimestampHeader)) != canon(trim(delivery.Sign.SignatureHeader)) ==> canon(trim(delivery.Sign.TimestampHeader)) in req.Header && len(req.Header[canon(trim(delivery.Sign.TimestampHeader))]) == 1 && req.Header[canon(trim(delivery.Sign.TimestampHeader))][0] == itoa(unixSeconds(clockNow))
+//@   ensures [C17:marks_signed] result == nil ==> signedReq == req
+
+//@ func (*HTTPDeliverer).Deliver
+//@   requires d != nil && d.Client != nil
+//@   modifies *
+//@   calls net/http.(*Client).Do requires [C16:send_only_after_policy] req.URL == egressOKURL && egressOKURL != nil && egressOKURL == ext("net/url.Parse", delivery.URL)
+//@   calls net/http.(*Client).Do requires [C17:send_only_when_signed] signedReq == req
+//@   ensures [C16:at_most_one_send] sends == old(sends) || sends == old(sends) + 1
